@@ -87,9 +87,44 @@ def cli_histories(res):
     shutil.rmtree(work, ignore_errors=True)
 
 
+def file_builds_on_threads(res, vh):
+    """builder::build_file called by several threads at overlapping moments, on ONE source path with different include
+    directories (holding different versions of an included file, or none), and on different paths with the same directories:
+    every call returns what the same call returns on its own"""
+    import shutil
+    work = os.path.join(C.BUILD, "work", "c17fs-%d" % os.getpid())
+    shutil.rmtree(work, ignore_errors=True)
+    os.makedirs(work)
+    body = "".join(" .dw VAL + %d\n" % i for i in range(1500))
+    mains = []
+    for m in ("main.asm", "other.asm"):
+        open(os.path.join(work, m), "w").write('.include "cfg.inc"\n' + body + (' .message "other"\n' if m == "other.asm" else ""))
+        mains.append(os.path.join(work, m))
+    dirs = []
+    for i, cfg in enumerate((".equ VAL = 1\n", ".equ VAL = 2\n.device ATmega8\n", ".equ VAL = 3\n.message \"three\"\n", None, ".equ VAL = nosuch\n")):
+        d = os.path.join(work, "inc%d" % i)
+        os.makedirs(d)
+        if cfg is not None:
+            open(os.path.join(d, "cfg.inc"), "w").write(cfg)
+        dirs.append(d)
+    cfgs = [(m, [d]) for m in mains for d in dirs] + [(mains[0], [dirs[3], dirs[0]]), (mains[0], [])]
+    inp = "".join("%s %s\n" % (m.encode().hex(), ",".join(d.encode().hex() for d in ds) or "-") for m, ds in cfgs)
+    out = C.vh(vh, ["histfs", "8", "12"], input=inp).split("\n")
+    for (m, ds), ln in zip(cfgs, out):
+        f = ln.split("\t")
+        alone, conc = f[0], set(f[1].split("|")) if len(f) > 1 else set()
+        res.count(("file-builds-on-threads", m, tuple(ds)), nontrivial=True)
+        if conc != {alone}:
+            P.fail(res, "builder::build_file on 8 threads", "%s with include directories %s (cfg.inc differs per directory; 1500 data words)" %
+                   (os.path.basename(m), [os.path.basename(d) for d in ds]), "the result of the same call on its own: " + alone[:80],
+                   "concurrent results %r" % sorted(x[:60] for x in conc), "threads-files")
+    shutil.rmtree(work, ignore_errors=True)
+
+
 def run(res):
     vh, exe = P.base(res, PROP)
     cli_histories(res)
+    file_builds_on_threads(res, vh)
     statics, iters = scan_statics()
     res.oblige("source scan: process-global state = the immutable DEVICES table only", statics == EXPECTED_STATICS,
                "found %r" % statics)
@@ -165,7 +200,7 @@ def run(res):
     res.extra["exhaustive"] = False
     res.rule = ("generated valid and failing programs (with and without .device, sharing symbol / macro / define names across builds) "
                 "and 16 programs that use 35..60-deep chains of definitions 1500 times, each built alone in a fresh process, after and before all others in one process, and by 8 concurrent threads walking "
-                "the list in different rotations; oracle: all observations of a source are equal.  Static scan of /repo/src for "
+                "the list in different rotations; oracle: all observations of a source are equal; build_file on 8 threads x 12 rounds over one source path with five include-directory sets and a second path.  Static scan of /repo/src for "
                 "static / thread_local / lazy_static / Once* / Atomic* / unsafe items and for iteration over the hash-map bindings")
     res.samples = [dict(source=texts[0], fresh=fresh[texts[0]][:80])]
     res.assume = ["thread schedules are explored, not proved; CommonContext is Rc<RefCell<..>> (!Send), so sharing a context across "
